@@ -179,23 +179,48 @@ def _objcache_dir():
 def _stage():
     import pickle
     t0 = time.time()
-    objs = build.build_asm_objects()
-    rels = {src: os.path.relpath(src, build.REPO) for src in objs}
+    ents = {e['file']: e for e in build.asm_entries()}
+    srcs = sorted(ents)
+    hashes = {}
+    srckeys = {}
+    if build.use_cache():
+        # units whose sources (with everything they include) and flags were assembled and analysed before need not be assembled again
+        cdir = _objcache_dir()
+        for src in srcs:
+            k = build.asm_source_key(ents[src])
+            srckeys[src] = k
+            try:
+                with open(os.path.join(cdir, 'src-' + k)) as f:
+                    h = f.read().strip()
+                if os.path.exists(os.path.join(cdir, h + '.pkl')):
+                    hashes[src] = h
+            except OSError:
+                pass
+        objs = build.assemble([ents[s_] for s_ in srcs if s_ not in hashes])
+    else:
+        objs = build.build_asm_objects()
+    rels = {src: os.path.relpath(src, build.REPO) for src in srcs}
     t1 = time.time()
     summaries = {}
     results = {}
     symtab = {}
     sections = {}
     funcs_of = {}
-    only = {src: None for src in objs}
+    only = {src: None for src in srcs}
     # ---- per-object reuse: an object whose code, symbols and relocations are byte-identical to one analysed before, and all of
     # whose external assembly callees live in such objects too, has identical results (a routine's facts depend on its own code and
     # on its callees' summaries only)
-    hashes = {}
     reused = 0
     if build.use_cache():
+        fresh = sorted(objs)
         with ProcessPoolExecutor(build.NPROC) as ex:
-            hashes = dict(zip(objs, ex.map(_objhash, [objs[s_] for s_ in objs])))
+            for s_, h_ in zip(fresh, ex.map(_objhash, [objs[s_] for s_ in fresh])):
+                hashes[s_] = h_
+                try:
+                    with open(os.path.join(_objcache_dir(), 'src-' + srckeys[s_]), 'w') as f:
+                        f.write(h_)
+                except OSError:
+                    pass
         cdir = _objcache_dir()
         cached = {}
         for src, h in hashes.items():
@@ -243,7 +268,11 @@ def _stage():
     with ProcessPoolExecutor(build.NPROC) as ex:
         while True:
             it += 1
-            tasks = [(objs[src], rels[src], summaries, only[src]) for src in objs if only[src] is None or only[src]]
+            todo = [src for src in srcs if only[src] is None or only[src]]
+            lazy = [ents[src] for src in todo if src not in objs]
+            if lazy:
+                objs.update(build.assemble(lazy))     # a re-used unit whose callee changed has to be analysed after all
+            tasks = [(objs[src], rels[src], summaries, only[src]) for src in todo]
             # big objects first
             tasks.sort(key=lambda t: -os.path.getsize(t[0]))
             out = list(ex.map(_worker, tasks, chunksize=1))
@@ -259,7 +288,7 @@ def _stage():
                 break
             # re-analyse callers of changed functions
             only = {}
-            for src in objs:
+            for src in srcs:
                 rel = rels[src]
                 need = set()
                 for name, r in results.get(rel, {}).items():
